@@ -27,6 +27,7 @@ type retState struct {
 	st   *State
 	vals []Value
 	pos  token.Pos
+	tag  string // source text of the return statement (names postcondition obligations)
 }
 
 func (e *Engine) execBlock(st *State, stmts []ast.Stmt, cx *Ctx) *State {
@@ -648,7 +649,9 @@ func (e *Engine) execReturn(st *State, n *ast.ReturnStmt, cx *Ctx) *State {
 			st.vars[r] = vals[i]
 		}
 	}
-	cx.returns = append(cx.returns, &retState{st: st, vals: vals, pos: n.Pos()})
+	var tb strings.Builder
+	printNode(&tb, e.prog.fset, n)
+	cx.returns = append(cx.returns, &retState{st: st, vals: vals, pos: n.Pos(), tag: strings.Join(strings.Fields(tb.String()), " ")})
 	return nil
 }
 
